@@ -1,4 +1,4 @@
-from contracts import views_cache, views_types
+from contracts import views_cache, views_types, views_nodes
 
 def build(tier):
-    return dict(targets=views_cache.targets(tier) + views_types.targets(tier), assumptions=[], trusted_base=[])
+    return dict(targets=views_cache.targets(tier) + views_types.targets(tier) + views_nodes.targets(tier), assumptions=[], trusted_base=[])
